@@ -543,7 +543,7 @@ func bigStreams(r *ev.Run) []*stream {
 		h.add("hand-big-stored", []*block{big, big}, "")
 		h.add("hand-big-stored", []*block{big, big, big}, "")
 	} else {
-		for _, xy := range [][2]*block{{tiny[0], tiny[3]}, {tiny[3], tiny[0]}, {tiny[1], tiny[4]}, {tiny[2], tiny[5]}} {
+		for _, xy := range [][2]*block{{tiny[0], tiny[3]}, {tiny[1], tiny[4]}} {
 			h.add("hand-big-stored", []*block{big, xy[0], xy[1]}, "")
 			h.add("hand-big-stored", []*block{xy[0], big, xy[1]}, "")
 		}
@@ -557,8 +557,8 @@ func bigStreams(r *ev.Run) []*stream {
 		return out
 	}
 	h.add("hand-long-huffman", []*block{fixedBlk(rep(lit(0xFF), 70000)...)}, "")
-	h.add("hand-long-huffman", []*block{fixedBlk(rep(lit(0xFF), 66000)...), storedBlk(1, 0)}, "")
 	if r.Thorough() {
+		h.add("hand-long-huffman", []*block{fixedBlk(rep(lit(0xFF), 66000)...), storedBlk(1, 0)}, "")
 		h.add("hand-long-huffman", []*block{dynBlk(T["chain15/eob-1bit"].styled(true, false, false), rep(lit('a'), 40000)...)}, "")
 		h.add("hand-long-huffman", []*block{fixedBlk(rep(lit(0xFF), 70000)...)}, "zlib")
 		h.add("hand-long-huffman", []*block{storedBlk(5, 0), fixedBlk(rep(lit(0x90), 67000)...)}, "")
@@ -789,7 +789,7 @@ func main() {
 		stopProf = pprof.StopCPUProfile
 	}
 	r := ev.Start("C16", "exploration")
-	r.SetBudget(6*time.Minute, 40*time.Minute)
+	r.SetBudget(8*time.Minute, 45*time.Minute)
 	nw := ev.Workers()
 	watch := ev.NewWatch(nw)
 	ws := make([]*worker, nw)
@@ -845,15 +845,15 @@ func main() {
 		robustness(r, ws, seeds)
 	}
 	phase("robustness")
-	if on("p1") {
-		refP1(r, ws, gens, maxLen)
-	}
-	phase("ref_P1")
 	big := bigStreams(r)
 	if on("big") {
 		runStreams(r, ws, big, true)
 	}
 	phase("big_streams")
+	if on("p1") {
+		refP1(r, ws, gens, maxLen)
+	}
+	phase("ref_P1")
 	for _, w := range ws {
 		w.flush()
 	}
